@@ -16,6 +16,8 @@ pub struct RawParameters {
     pub definition: String,
     pub globals: BTreeMap<String, String>,
     recursion_level: usize,
+    // The macro invocation whose arguments were most recently entered into the globals
+    entered: String,
 }
 
 impl RawParameters {
@@ -24,6 +26,7 @@ impl RawParameters {
         let globals = globals.clone();
         let invocation = invocation.to_string();
         let definition = invocation.clone();
+        let entered = String::new();
 
         // If it is a macro invocation, the `next()` method is called
         // to do the parameter handling
@@ -34,6 +37,7 @@ impl RawParameters {
                 definition,
                 globals,
                 recursion_level,
+                entered,
             };
             return previous.next(&previous.invocation);
         }
@@ -45,6 +49,7 @@ impl RawParameters {
             definition,
             globals,
             recursion_level,
+            entered,
         }
     }
 
@@ -57,7 +62,15 @@ impl RawParameters {
         // The recursion breaker counts macro expansions, not plain pipeline steps
         let mut recursion_level = self.recursion_level;
         let mut globals = self.globals.clone();
-        if definition.is_resource_name() {
+        let mut entered = self.entered.clone();
+        // The arguments of one and the same invocation must enter the scope once only
+        // (the operator factory calls us again for an invocation already handled as
+        // a pipeline step, or as the top level definition): a second pass would resolve
+        // the look-ups among the arguments themselves, not in the scope of the invocation
+        if definition.is_resource_name() && entered == definition.trim() {
+            recursion_level += 1;
+        } else if definition.is_resource_name() {
+            entered = definition.trim().to_string();
             globals.remove("_name");
             let mut args = definition.split_into_parameters();
             // Look-ups ('$name', '$name(default)', '(default)') in the arguments of a
@@ -85,6 +98,7 @@ impl RawParameters {
             definition,
             globals,
             recursion_level,
+            entered,
         }
     }
 
